@@ -362,6 +362,104 @@ func c10OtherGroups(c *Ctx) []c10Group {
 			}
 		}})
 	}
+	gs = append(gs, c10SequenceGroups(c)...)
+	return gs
+}
+
+// c10SequenceGroups: sequences of individually valid packages in orders and
+// family combinations a server should not produce (a format followed by the
+// data token of the other family, data repeated after a mismatch, data
+// without any format, ORDERBY between them, ...). The state one package
+// leaves behind (LastPkg) is input to the next one's parser.
+func c10SequenceGroups(c *Ctx) []c10Group {
+	types := c10Types()
+	simple := types[:0:0]
+	for _, t := range types {
+		if len(t.Data) > 0 && len(t.Data) < 40 {
+			simple = append(simple, t)
+		}
+	}
+	nSeq, chunks := 4000, 8
+	if !c.Quick() {
+		nSeq, chunks = 400000, 32
+	}
+	done := []byte{0xfd, 0, 0, 0, 0, 0, 0, 0, 0}
+	orderby := []byte{0xa9, 1, 0, 1}
+	orderby2 := []byte{0x22, 4, 0, 0, 0, 1, 0, 1, 0}
+	msg := []byte{0x65, 3, 0, 13, 0}
+	retstat := []byte{0x79, 1, 0, 0, 0}
+	var gs []c10Group
+	// exhaustive over short sequences of the structural alphabet first
+	gs = append(gs, c10Group{Name: "sequence/enumerated", Gen: func(emit func(*c10Case, []byte)) {
+		col := []c10Col{{T: simple[0]}}
+		dat := [][]byte{simple[0].Data}
+		var alpha [][]byte
+		for _, kind := range c10FmtKinds {
+			alpha = append(alpha, c10FmtPkg(kind, col))
+		}
+		for _, kind := range []byte{c10ParamFmt, c10RowFmt2} {
+			alpha = append(alpha, c10RowPkg(kind, col, dat)) // one PARAMS, one ROW
+		}
+		alpha = append(alpha, done, orderby, orderby2, msg)
+		n := 0
+		var rec func(prefix []byte, depth int)
+		rec = func(prefix []byte, depth int) {
+			if depth > 0 {
+				emit(c10Mk("direct", "sequence", "enumerated", n, c10Clone(prefix)), nil)
+				n++
+			}
+			if depth == 4 {
+				return
+			}
+			for _, a := range alpha {
+				rec(append(c10Clone(prefix), a...), depth+1)
+			}
+		}
+		rec(nil, 0)
+	}})
+	for k := 0; k < chunks; k++ {
+		k := k
+		name := fmt.Sprintf("sequence/%d", k)
+		gs = append(gs, c10Group{Name: name, Gen: func(emit func(*c10Case, []byte)) {
+			rnd := rt.NewRand(c.Seed, "c10/"+name)
+			per := nSeq / chunks
+			for i := 0; i < per; i++ {
+				var b []byte
+				var cols []c10Col
+				var data [][]byte
+				for j := rnd.Range(2, 6); j > 0; j-- {
+					switch rnd.Intn(9) {
+					case 0, 1: // a format (any kind) over 1-3 columns
+						ncol := rnd.Range(1, 3)
+						cols = make([]c10Col, ncol)
+						data = make([][]byte, ncol)
+						for x := range cols {
+							cols[x] = c10Col{T: simple[rnd.Intn(len(simple))], Status: []uint32{0, 0x8, 0x20}[rnd.Intn(3)]}
+							data[x] = cols[x].T.Data
+						}
+						b = append(b, c10FmtPkg(c10FmtKinds[rnd.Intn(4)], cols)...)
+					case 2, 3, 4: // a data package of either family for the last format's columns
+						kind := c10FmtKinds[rnd.Intn(4)]
+						if cols == nil {
+							b = append(b, c10DataTok(kind))
+							b = append(b, rnd.Bytes(rnd.Intn(9))...)
+						} else {
+							b = append(b, c10RowPkg(kind, cols, data)...)
+						}
+					case 5:
+						b = append(b, orderby...)
+					case 6:
+						b = append(b, orderby2...)
+					case 7:
+						b = append(b, [][]byte{msg, retstat}[rnd.Intn(2)]...)
+					default:
+						b = append(b, done...)
+					}
+				}
+				emit(c10Mk("direct", "sequence", "random", k*per+i, b), nil)
+			}
+		}})
+	}
 	return gs
 }
 
